@@ -1,5 +1,8 @@
 // search.go: failing-input search legs of hx_c14 (active only with -search).
 //
+// The legs that run in the NORMAL tiers (Unicode look-alikes and classes, single matches longer than 64 / 256 / 4096 runes)
+// are in legs3.go.
+//
 // The normal tiers use five letters, words of at most ~6 runes and dictionaries of at most nine words. The legs:
 //
 //	fanout    one node (the root, a depth-1 and a depth-3 node) grown past 8/16/32/64/128/256 children, pruned back
